@@ -1,12 +1,13 @@
 #!/usr/bin/env python3
-"""Regenerate MANIFEST.json from checks.json (one source of truth) and validate it against the schema."""
+"""Regenerate MANIFEST.json from checks.d/*.json (one source of truth) and validate it against the schema."""
 import json
 import os
 import subprocess
 import sys
 
 VERIF = os.path.dirname(os.path.dirname(os.path.abspath(__file__)))
-checks = json.load(open(os.path.join(VERIF, "checks.json")))
+checks = {fn[:-5]: json.load(open(os.path.join(VERIF, "checks.d", fn)))
+          for fn in sorted(os.listdir(os.path.join(VERIF, "checks.d"))) if fn.endswith(".json")}
 props = [json.loads(l) for l in open(os.path.join(VERIF, "properties.jsonl"))]
 
 
@@ -26,10 +27,10 @@ m = {
         "add_only": True,
     },
     "engines": [
-        {"name": "rapidcheck", "path": "harness/rc_main.cpp", "serves_properties": sorted(checks),
+        {"name": "rapidcheck", "path": "harness/rc_main.cpp", "serves_properties": sorted(p for p, c in checks.items() if c.get("claimed")),
          "kind_free_text": "property-based testing: rc::check over byte strings decoded into in-domain cases; seed-exact (RC_PARAMS seed derived from VERIF_SEED), shrinking to a minimal byte string = replay file"},
         {"name": "libFuzzer", "path": "harness/fuzz_main.cpp",
-         "serves_properties": sorted(p for p, c in checks.items() if any(t.get("fuzz_variant") for t in c["targets"])),
+         "serves_properties": sorted(p for p, c in checks.items() if c.get("claimed") and any(t.get("fuzz_variant") for t in c["targets"])),
          "kind_free_text": "coverage-guided fuzzing of the same decoder+oracle (thorough tier; also crash minimiser for the quick tier), ASan+UBSan"},
     ],
     "checks": [],
@@ -38,7 +39,7 @@ m = {
 }
 for p in props:
     pid = p["id"]
-    if pid in checks:
+    if pid in checks and checks[pid].get("claimed"):
         c = checks[pid]
         m["checks"].append({
             "property_id": pid,
